@@ -203,7 +203,7 @@ func runC01(c *Ctx) error {
 	for i := 0; i < n; i++ {
 		g := &xGen{r: c.Rng}
 		root := g.node("Q", 3)
-		q := genXQuery(c.Rng, 3, 0, 0)
+		q := genXQuery(c.Rng, 3, []float64{0, 0, 0.2}[c.Rng.Intn(3)], 0)
 		c01One(c, m, root, q, c.Rng.Bool())
 	}
 	return nil
